@@ -70,7 +70,8 @@ def emit_one(penne, root, case, timeout):
             f.write(m["src"])
     cmd = [penne, "emit", "--out-dir", "out", "--color", "never"] + (["--wasm"] if case.get("wasm") else []) + args
     try:
-        p = subprocess.run(cmd, cwd=d, stdout=subprocess.PIPE, stderr=subprocess.PIPE, timeout=timeout)
+        p = subprocess.run(cmd, cwd=d, stdout=subprocess.PIPE, stderr=subprocess.PIPE, timeout=timeout,
+                           env=dict(os.environ, RUST_BACKTRACE="0"))
         res = {"rc": p.returncode, "stderr": p.stderr.decode("utf-8", "replace"), "stdout": p.stdout.decode("utf-8", "replace")}
     except subprocess.TimeoutExpired:
         res = {"rc": "timeout", "stderr": "", "stdout": ""}
@@ -213,6 +214,7 @@ def selftests(rep, meta, work_prefix):
 
 def run(rep, tier, seed, selftest):
     selftest = selftest or tier == "thorough"
+    state0 = pc.repo_state()
     common.build_harness(pc.EXE)
     penne = pc.build_penne()
     meta = pc.ensure_run(tier, seed)
@@ -322,6 +324,7 @@ def run(rep, tier, seed, selftest):
                          {"case": cases[cid], "cli": {k: (v[-600:] if isinstance(v, str) else v) for k, v in res.items()},
                           "message": bad[1]})
     shutil.rmtree(root, ignore_errors=True)
+    pc.assert_same_tree(state0)
     findings.flush(rep)
     log("[cli] penne emit on %d inputs (5%% sample + %d anomalous runs): %d disagreements with the library pipeline" %
         (len(todo), len(anomalies), n_cli_bad))
